@@ -30,7 +30,7 @@ man = {
     "hooks": {
         "guard": "verif",
         "enable": "no hook was needed: every seam is an interface (crypto.Signer, afero.Fs, io.ReaderAt), an assignable package variable (time.Local, efi/fs.Fs, attributes.Efivars), the go1.26 testing/synctest bubble, a supervised worker process, or (C19 only) go/ast-inserted yields in a throw-away copy of /repo; checks build /repo as it is",
-        "baseline_off_cmd": "cd /repo && go test -vet=off -count=1 ./asntest/... ./authenticode/... ./efi/... ./efivar/... ./efivarfs/... ./pkcs7/...",
+        "baseline_off_cmd": "cd /repo && go test -json -vet=off -count=1 -timeout 25m ./asntest/... ./authenticode/... ./efi/... ./efivar/... ./efivarfs/... ./pkcs7/...",
         "source_commits": [],
         "add_only": True,
     },
